@@ -159,8 +159,11 @@ def returns_ladder(ctx, P, f, subst):
                bool(ok), s.where, {"assembler": show(obj)})
     # current_fees: -1 sentinel or the accumulated fees of the caller's template, computed before the comparison
     cur = None
-    for s in sites(f, lambda e: e[0] == "b" and e[1] in ("<", ">=", ">", "<=") and "fee_threshold" in show(e) and "accumulate" in show(F.expand(e, subst)), P):
-        for x in subexprs(s.expr):
+    sx = {k: v for k, v in subst.items() if k != "@idx"}
+    # (decided on the comparison with its single-definition locals expanded, so `required = current + threshold; if (new >= required)` is the same test)
+    is_fee_cmp = lambda e: e[0] == "b" and e[1] in ("<", ">=", ">", "<=") and "fee_threshold" in show(F.expand(e, sx)) and "accumulate" in show(F.expand(e, sx))
+    for s in sites(f, is_fee_cmp, P):
+        for x in subexprs(F.expand(s.expr, sx)):
             if match(["b", "+", ["local", ANY], [".", ["param", "wait_options"], ANY]], x):
                 cur = x[2][1]
             if match(["b", "+", [".", ["param", "wait_options"], ANY], ["local", ANY]], x):
@@ -177,7 +180,7 @@ def returns_ladder(ctx, P, f, subst):
     is_set = lambda e: match(["b", "=", ["local", cur], ANY], e)
     mf = MustFlow(f, P, marks=[("computed", is_set)], branch_marks=[("computed", lambda a: match(["b", "==", ["local", cur], ["int", -1]], a) or match(["b", "==", ["int", -1], ["local", cur]], a), False),
                                                                    ("computed", lambda a: match(["b", "!=", ["local", cur], ["int", -1]], a), True)])
-    mf.watch = lambda e: e[0] == "b" and e[1] in ("<", ">=", ">", "<=") and any(match(["local", cur], x) for x in subexprs(e)) and "fee_threshold" in show(e)
+    mf.watch = lambda e: is_fee_cmp(e) and any(match(["local", cur], x) for x in subexprs(F.expand(e, sx)))
     mf.run()
     ctx.floor("fee comparisons", len(mf.events), 1)
     bad = [st.get("l") for e, state, st in mf.events if "computed" not in state]
